@@ -46,6 +46,9 @@ proofs/HtmlDecode_proofs.vos proofs/HtmlDecode_proofs.vok proofs/HtmlDecode_proo
 proofs/Json_proofs.vo proofs/Json_proofs.glob proofs/Json_proofs.v.beautified proofs/Json_proofs.required_vo: proofs/Json_proofs.v lib/Bytes.vo model/Json.vo
 proofs/Json_proofs.vio: proofs/Json_proofs.v lib/Bytes.vio model/Json.vio
 proofs/Json_proofs.vos proofs/Json_proofs.vok proofs/Json_proofs.required_vos: proofs/Json_proofs.v lib/Bytes.vos model/Json.vos
+proofs/ShowData_proofs.vo proofs/ShowData_proofs.glob proofs/ShowData_proofs.v.beautified proofs/ShowData_proofs.required_vo: proofs/ShowData_proofs.v lib/Bytes.vo lib/ShowTree.vo gen/Facts_show.vo model/ShowTypesM.vo model/ShowJsonM.vo model/ShowLeavesM.vo model/Json.vo model/ShowSpecM.vo proofs/ShowTree_proofs.vo proofs/Show_flat_proofs.vo proofs/Show_js_checks.vo proofs/Show_js_proofs.vo proofs/Show_c09_proofs.vo proofs/Json_proofs.vo proofs/ShowLeaves_proofs.vo proofs/ShowJson_proofs.vo
+proofs/ShowData_proofs.vio: proofs/ShowData_proofs.v lib/Bytes.vio lib/ShowTree.vio gen/Facts_show.vio model/ShowTypesM.vio model/ShowJsonM.vio model/ShowLeavesM.vio model/Json.vio model/ShowSpecM.vio proofs/ShowTree_proofs.vio proofs/Show_flat_proofs.vio proofs/Show_js_checks.vio proofs/Show_js_proofs.vio proofs/Show_c09_proofs.vio proofs/Json_proofs.vio proofs/ShowLeaves_proofs.vio proofs/ShowJson_proofs.vio
+proofs/ShowData_proofs.vos proofs/ShowData_proofs.vok proofs/ShowData_proofs.required_vos: proofs/ShowData_proofs.v lib/Bytes.vos lib/ShowTree.vos gen/Facts_show.vos model/ShowTypesM.vos model/ShowJsonM.vos model/ShowLeavesM.vos model/Json.vos model/ShowSpecM.vos proofs/ShowTree_proofs.vos proofs/Show_flat_proofs.vos proofs/Show_js_checks.vos proofs/Show_js_proofs.vos proofs/Show_c09_proofs.vos proofs/Json_proofs.vos proofs/ShowLeaves_proofs.vos proofs/ShowJson_proofs.vos
 proofs/ShowJson_proofs.vo proofs/ShowJson_proofs.glob proofs/ShowJson_proofs.v.beautified proofs/ShowJson_proofs.required_vo: proofs/ShowJson_proofs.v lib/Bytes.vo lib/ShowTree.vo gen/Facts_show.vo model/ShowTypesM.vo model/ShowJsonM.vo model/ShowLeavesM.vo model/Json.vo proofs/ShowTree_proofs.vo proofs/Show_flat_proofs.vo proofs/Show_js_checks.vo proofs/Show_js_proofs.vo proofs/Show_c09_proofs.vo proofs/Json_proofs.vo proofs/ShowLeaves_proofs.vo
 proofs/ShowJson_proofs.vio: proofs/ShowJson_proofs.v lib/Bytes.vio lib/ShowTree.vio gen/Facts_show.vio model/ShowTypesM.vio model/ShowJsonM.vio model/ShowLeavesM.vio model/Json.vio proofs/ShowTree_proofs.vio proofs/Show_flat_proofs.vio proofs/Show_js_checks.vio proofs/Show_js_proofs.vio proofs/Show_c09_proofs.vio proofs/Json_proofs.vio proofs/ShowLeaves_proofs.vio
 proofs/ShowJson_proofs.vos proofs/ShowJson_proofs.vok proofs/ShowJson_proofs.required_vos: proofs/ShowJson_proofs.v lib/Bytes.vos lib/ShowTree.vos gen/Facts_show.vos model/ShowTypesM.vos model/ShowJsonM.vos model/ShowLeavesM.vos model/Json.vos proofs/ShowTree_proofs.vos proofs/Show_flat_proofs.vos proofs/Show_js_checks.vos proofs/Show_js_proofs.vos proofs/Show_c09_proofs.vos proofs/Json_proofs.vos proofs/ShowLeaves_proofs.vos
@@ -67,9 +70,9 @@ proofs/Show_js_checks.vos proofs/Show_js_checks.vok proofs/Show_js_checks.requir
 proofs/Show_js_proofs.vo proofs/Show_js_proofs.glob proofs/Show_js_proofs.v.beautified proofs/Show_js_proofs.required_vo: proofs/Show_js_proofs.v lib/Bytes.vo lib/ShowTree.vo gen/Facts_show.vo model/ShowTypesM.vo model/ShowJsonM.vo model/ShowLeavesM.vo model/Json.vo model/ShowSpecM.vo proofs/ShowTree_proofs.vo proofs/Show_js_checks.vo
 proofs/Show_js_proofs.vio: proofs/Show_js_proofs.v lib/Bytes.vio lib/ShowTree.vio gen/Facts_show.vio model/ShowTypesM.vio model/ShowJsonM.vio model/ShowLeavesM.vio model/Json.vio model/ShowSpecM.vio proofs/ShowTree_proofs.vio proofs/Show_js_checks.vio
 proofs/Show_js_proofs.vos proofs/Show_js_proofs.vok proofs/Show_js_proofs.required_vos: proofs/Show_js_proofs.v lib/Bytes.vos lib/ShowTree.vos gen/Facts_show.vos model/ShowTypesM.vos model/ShowJsonM.vos model/ShowLeavesM.vos model/Json.vos model/ShowSpecM.vos proofs/ShowTree_proofs.vos proofs/Show_js_checks.vos
-props/C08.vo props/C08.glob props/C08.v.beautified props/C08.required_vo: props/C08.v lib/Bytes.vo lib/ShowTree.vo gen/Facts_show.vo model/ShowTypesM.vo model/ShowJsonM.vo model/ShowLeavesM.vo model/Json.vo model/ShowSpecM.vo proofs/ShowTree_proofs.vo proofs/Show_flat_proofs.vo proofs/Show_js_checks.vo proofs/Show_js_proofs.vo proofs/Show_c09_proofs.vo proofs/Json_proofs.vo proofs/ShowLeaves_proofs.vo proofs/ShowJson_proofs.vo
-props/C08.vio: props/C08.v lib/Bytes.vio lib/ShowTree.vio gen/Facts_show.vio model/ShowTypesM.vio model/ShowJsonM.vio model/ShowLeavesM.vio model/Json.vio model/ShowSpecM.vio proofs/ShowTree_proofs.vio proofs/Show_flat_proofs.vio proofs/Show_js_checks.vio proofs/Show_js_proofs.vio proofs/Show_c09_proofs.vio proofs/Json_proofs.vio proofs/ShowLeaves_proofs.vio proofs/ShowJson_proofs.vio
-props/C08.vos props/C08.vok props/C08.required_vos: props/C08.v lib/Bytes.vos lib/ShowTree.vos gen/Facts_show.vos model/ShowTypesM.vos model/ShowJsonM.vos model/ShowLeavesM.vos model/Json.vos model/ShowSpecM.vos proofs/ShowTree_proofs.vos proofs/Show_flat_proofs.vos proofs/Show_js_checks.vos proofs/Show_js_proofs.vos proofs/Show_c09_proofs.vos proofs/Json_proofs.vos proofs/ShowLeaves_proofs.vos proofs/ShowJson_proofs.vos
+props/C08.vo props/C08.glob props/C08.v.beautified props/C08.required_vo: props/C08.v lib/Bytes.vo lib/ShowTree.vo gen/Facts_show.vo model/ShowTypesM.vo model/ShowJsonM.vo model/ShowLeavesM.vo model/Json.vo model/ShowSpecM.vo proofs/ShowTree_proofs.vo proofs/Show_flat_proofs.vo proofs/Show_js_checks.vo proofs/Show_js_proofs.vo proofs/Show_c09_proofs.vo proofs/Json_proofs.vo proofs/ShowLeaves_proofs.vo proofs/ShowJson_proofs.vo proofs/ShowData_proofs.vo
+props/C08.vio: props/C08.v lib/Bytes.vio lib/ShowTree.vio gen/Facts_show.vio model/ShowTypesM.vio model/ShowJsonM.vio model/ShowLeavesM.vio model/Json.vio model/ShowSpecM.vio proofs/ShowTree_proofs.vio proofs/Show_flat_proofs.vio proofs/Show_js_checks.vio proofs/Show_js_proofs.vio proofs/Show_c09_proofs.vio proofs/Json_proofs.vio proofs/ShowLeaves_proofs.vio proofs/ShowJson_proofs.vio proofs/ShowData_proofs.vio
+props/C08.vos props/C08.vok props/C08.required_vos: props/C08.v lib/Bytes.vos lib/ShowTree.vos gen/Facts_show.vos model/ShowTypesM.vos model/ShowJsonM.vos model/ShowLeavesM.vos model/Json.vos model/ShowSpecM.vos proofs/ShowTree_proofs.vos proofs/Show_flat_proofs.vos proofs/Show_js_checks.vos proofs/Show_js_proofs.vos proofs/Show_c09_proofs.vos proofs/Json_proofs.vos proofs/ShowLeaves_proofs.vos proofs/ShowJson_proofs.vos proofs/ShowData_proofs.vos
 props/C09.vo props/C09.glob props/C09.v.beautified props/C09.required_vo: props/C09.v lib/Bytes.vo lib/ShowTree.vo gen/Facts_show.vo model/ShowTypesM.vo model/ShowJsonM.vo proofs/ShowTree_proofs.vo proofs/Show_flat_proofs.vo proofs/Show_js_checks.vo proofs/Show_js_proofs.vo proofs/Show_c09_proofs.vo
 props/C09.vio: props/C09.v lib/Bytes.vio lib/ShowTree.vio gen/Facts_show.vio model/ShowTypesM.vio model/ShowJsonM.vio proofs/ShowTree_proofs.vio proofs/Show_flat_proofs.vio proofs/Show_js_checks.vio proofs/Show_js_proofs.vio proofs/Show_c09_proofs.vio
 props/C09.vos props/C09.vok props/C09.required_vos: props/C09.v lib/Bytes.vos lib/ShowTree.vos gen/Facts_show.vos model/ShowTypesM.vos model/ShowJsonM.vos proofs/ShowTree_proofs.vos proofs/Show_flat_proofs.vos proofs/Show_js_checks.vos proofs/Show_js_proofs.vos proofs/Show_c09_proofs.vos
